@@ -11,8 +11,7 @@ git -C /repo worktree add -q --detach $WT HEAD || exit 9
 git -C $WT apply /verif/seeded/$SID/patch.diff || { git -C /repo worktree remove --force $WT; exit 8; }
 if [ $# -eq 0 ]; then set -- $PID; fi
 LOG=/tmp/seedrun-$SID-$1.log
-VERIF_REPO=$WT ./check "$@" > $LOG 2>&1; rc=$?
+VERIF_EVIDENCE_DIR=/tmp/seed-evidence VERIF_REPO=$WT ./check "$@" > $LOG 2>&1; rc=$?
 git -C /repo worktree remove --force $WT
-git -C /verif checkout -- evidence/$1.json 2>/dev/null
 echo "$SID [$*]: exit=$rc $(grep -c '^VIOLATION' $LOG) violation lines; $(tail -1 $LOG)"
 grep -m2 -A1 '^VIOLATION' $LOG | cut -c1-400
